@@ -10,7 +10,9 @@ import (
 	"io"
 	"os"
 	"path/filepath"
+	"regexp"
 	"sort"
+	"strconv"
 	"strings"
 	"syscall"
 	"time"
@@ -40,14 +42,28 @@ func (t *tree) lookupAbs(p string) *pw.TNode {
 		return t.src[p[len(pw.SrcRoot)+1:]]
 	case strings.HasPrefix(p, pw.ExtRoot+"/"):
 		return t.ext[p[len(pw.ExtRoot)+1:]]
-	case p == "/w/src-evil" || p == "/w" || p == "/w/hist3" || p == "/w/hist3/ext":
+	case p == "/w/src-evil" || p == "/w" || p == "/w/hist3" || p == "/w/hist3/ext" || p == "/w/SRC":
 		return &pw.TNode{Root: "evil", Kind: "dir"}
 	case p == "/w/hist3/ext/file":
 		return &pw.TNode{Root: "evil", Kind: "file", Tok: "OUT-7;"}
 	case p == "/w/src-evil/secret":
 		return &pw.TNode{Root: "evil", Kind: "file", Tok: "OUT-9;"}
+	case p == "/w/SRC/secret":
+		return &pw.TNode{Root: "evil", Kind: "file", Tok: "OUT-11;"}
 	}
 	return nil
+}
+
+var rawByteRe = regexp.MustCompile(`@([0-9A-F]{2})@`)
+
+func rawBytes(s string) string {
+	if !strings.Contains(s, "@") {
+		return s
+	}
+	return rawByteRe.ReplaceAllStringFunc(s, func(m string) string {
+		b, _ := strconv.ParseUint(m[1:3], 16, 8)
+		return string([]byte{byte(b)})
+	})
 }
 
 func setTimes(p string, sec, nsec int64) error {
@@ -62,6 +78,8 @@ func buildArena(sc *pw.Scenario) error {
 		}
 	}
 	os.WriteFile("/w/src-evil/secret", []byte("OUT-9;"), 0o644)
+	os.MkdirAll("/w/SRC", 0o755)
+	os.WriteFile("/w/SRC/secret", []byte("OUT-11;"), 0o644)
 	os.Symlink(pw.SrcRoot, "/w/lnk-abs")
 	os.Symlink("src", "/w/lnk-rel")
 	os.Symlink("/w/lnk-abs", "/w/lnk-chain")
@@ -149,7 +167,7 @@ func buildArena(sc *pw.Scenario) error {
 			return fmt.Errorf("times %s: %w", p, err)
 		}
 	}
-	for _, d := range []string{pw.SrcRoot, pw.ExtRoot, "/w/src-evil", "/w/src-evil/secret", "/w/lnk-abs", "/w/lnk-rel", "/w/lnk-chain", "/w"} {
+	for _, d := range []string{pw.SrcRoot, pw.ExtRoot, "/w/src-evil", "/w/src-evil/secret", "/w/SRC", "/w/SRC/secret", "/w/lnk-abs", "/w/lnk-rel", "/w/lnk-chain", "/w"} {
 		setTimes(d, 1300000000, 0)
 	}
 	return nil
@@ -320,6 +338,14 @@ func Run(sc *pw.Scenario) *simkit.Outcome {
 	}
 	if sc.Opts.Legacy {
 		sc.Opts.Ignore = true // slug.Pack always applies .terraformignore
+	}
+	// names that are not valid UTF-8 travel in the scenario as @XX@ (JSON cannot carry them)
+	for i := range sc.Tree {
+		sc.Tree[i].Path = rawBytes(sc.Tree[i].Path)
+		sc.Tree[i].Target = rawBytes(sc.Tree[i].Target)
+	}
+	for i := range sc.Mutations {
+		sc.Mutations[i].Path = rawBytes(sc.Mutations[i].Path)
 	}
 	simkit.WipeArena()
 	syscall.Umask(0o022)
